@@ -1,4 +1,706 @@
-//! C17 — not built yet.
+//! C17 — bit-level arithmetic helpers are exact.
+//! Correspondence of Model/{Adder,Mux,Clip,LongDiv}.v with ops/{adder,multiplexer,clip,
+//! long_division}.rs: the instantiated custom operation is evaluated by /repo's evaluator on a
+//! batch of operands, the Gallina model on the same operands; plus the native oracle (wrapping
+//! add, select, clamp, floored division written here independently of /repo).
+use crate::coqfmt::*;
+use crate::gen::*;
 use crate::out::Out;
-pub const HEADER: &str = "From CC Require Import Base.Prelude.";
-pub fn run(_tier: &str, _seed: u64, _out: &mut Out) {}
+use crate::rng::Rng;
+use ciphercore_base::custom_ops::{run_instantiation_pass, CustomOperation};
+use ciphercore_base::data_types::*;
+use ciphercore_base::data_values::Value;
+use ciphercore_base::evaluators::random_evaluate;
+use ciphercore_base::graphs::util::simple_context;
+use ciphercore_base::ops::adder::BinaryAdd;
+use ciphercore_base::ops::clip::Clip2K;
+use ciphercore_base::ops::long_division::LongDivision;
+use ciphercore_base::ops::multiplexer::Mux;
+use serde_json::json;
+use std::panic::AssertUnwindSafe;
+
+pub const HEADER: &str =
+    "From CC Require Import Base.Prelude Base.Scalar Model.Adder Model.Mux Model.Clip Model.LongDiv Model.C17Tie.";
+
+// ------------------------------------------------------------------------------------ plumbing
+fn mask(w: u32) -> u128 {
+    if w >= 128 {
+        u128::MAX
+    } else {
+        (1u128 << w) - 1
+    }
+}
+/// two's complement reading of the w low bits
+fn sval(x: u128, w: u32) -> i128 {
+    let x = x & mask(w);
+    if w >= 128 {
+        x as i128
+    } else if (x >> (w - 1)) & 1 == 1 {
+        (x as i128).wrapping_sub(1i128 << w) // exact for w <= 126; for w = 127 the wrap gives x - 2^127
+    } else {
+        x as i128
+    }
+}
+fn numel(shape: &[u64]) -> usize {
+    shape.iter().product::<u64>() as usize
+}
+/// NumPy broadcasting of shapes (right-aligned); None if incompatible. Written here, not taken from /repo.
+fn bshape(a: &[u64], b: &[u64]) -> Option<Vec<u64>> {
+    let n = a.len().max(b.len());
+    let mut r = vec![0; n];
+    for i in 0..n {
+        let x = if i < n - a.len() { 1 } else { a[i - (n - a.len())] };
+        let y = if i < n - b.len() { 1 } else { b[i - (n - b.len())] };
+        r[i] = if x == y || y == 1 {
+            x
+        } else if x == 1 {
+            y
+        } else {
+            return None;
+        };
+    }
+    Some(r)
+}
+/// element of `xs` (shape `shape`, right-aligned in `out_shape`) seen at flat position `idx` of `out_shape`
+fn bget<T: Copy>(xs: &[T], shape: &[u64], out_shape: &[u64], idx: usize) -> T {
+    let n = out_shape.len();
+    let mut rem = idx;
+    let mut coords = vec![0u64; n];
+    for i in (0..n).rev() {
+        coords[i] = (rem as u64) % out_shape[i];
+        rem /= out_shape[i] as usize;
+    }
+    let off = n - shape.len();
+    let mut flat = 0usize;
+    for (j, d) in shape.iter().enumerate() {
+        let c = if *d == 1 { 0 } else { coords[off + j] };
+        flat = flat * (*d as usize) + c as usize;
+    }
+    xs[flat]
+}
+fn bexpand<T: Copy>(xs: &[T], shape: &[u64], out_shape: &[u64]) -> Vec<T> {
+    (0..numel(out_shape)).map(|i| bget(xs, shape, out_shape, i)).collect()
+}
+/// integers (w low bits) -> BIT array value of shape batch ++ [w], least significant bit first
+fn bits_value(xs: &[u128], w: u32) -> Value {
+    let mut bits: Vec<u8> = Vec::with_capacity(xs.len() * w as usize);
+    for x in xs {
+        for i in 0..w {
+            bits.push(((x >> i) & 1) as u8);
+        }
+    }
+    Value::from_flattened_array(&bits, BIT).unwrap()
+}
+fn with_bits(batch: &[u64], w: u32) -> Vec<u64> {
+    let mut s = batch.to_vec();
+    s.push(w as u64);
+    s
+}
+/// BIT array value of shape batch ++ [w] -> integers
+fn value_ints(v: &Value, batch: &[u64], w: u32) -> ciphercore_base::errors::Result<Vec<u128>> {
+    let bits = v.to_flattened_array_u64(array_type(with_bits(batch, w), BIT))?;
+    Ok(bits
+        .chunks(w as usize)
+        .map(|c| c.iter().enumerate().fold(0u128, |a, (i, b)| a | ((*b as u128 & 1) << i)))
+        .collect())
+}
+/// builds a one-operation context, instantiates the custom operation, evaluates
+fn eval_op<F: Fn() -> CustomOperation>(mk: F, tys: Vec<Type>, vals: Vec<Value>) -> Outcome<Value> {
+    observe(AssertUnwindSafe(move || {
+        let c = simple_context(|g| {
+            let ins = tys.iter().map(|t| g.input(t.clone())).collect::<ciphercore_base::errors::Result<Vec<_>>>()?;
+            g.custom_op(mk(), ins)
+        })?;
+        let mapped = run_instantiation_pass(c)?;
+        random_evaluate(mapped.get_context().get_main_graph()?, vals)
+    }))
+}
+fn zl(xs: &[u128]) -> String {
+    list_u128(xs)
+}
+fn blist(x: u128, w: u32) -> String {
+    let v: Vec<String> = (0..w).map(|i| if (x >> i) & 1 == 1 { "true".into() } else { "false".into() }).collect();
+    format!("[{}]", v.join("; "))
+}
+fn cb(b: bool) -> &'static str {
+    if b {
+        "true"
+    } else {
+        "false"
+    }
+}
+fn corners(w: u32, rng: &mut Rng, extra: usize) -> Vec<u128> {
+    let m = mask(w);
+    let mut v = vec![
+        0,
+        1 & m,
+        m,                                        // all ones = -1
+        m.wrapping_sub(1) & m,                    // -2
+        (1u128 << (w - 1)) & m,                   // min
+        ((1u128 << (w - 1)).wrapping_sub(1)) & m, // max
+        ((1u128 << (w - 1)) + 1) & m,             // min + 1
+        0x5555_5555_5555_5555_5555_5555_5555_5555 & m,
+        0xAAAA_AAAA_AAAA_AAAA_AAAA_AAAA_AAAA_AAAA & m,
+        2 & m,
+        3 & m,
+    ];
+    for _ in 0..extra {
+        let r = rng.u128();
+        v.push(match rng.below(4) {
+            0 => r & m,
+            1 => (r >> (128 - w.min(128)) / 2) & m & (m >> (w / 2)),
+            2 => (1u128 << rng.below(w as u64)) & m,
+            _ => m ^ ((1u128 << rng.below(w as u64)) & m),
+        });
+    }
+    v.sort();
+    v.dedup();
+    v
+}
+
+// ------------------------------------------------------------------------------------ adder
+/// One BinaryAdd evaluation on broadcastable batches; emits the case and the oracle verdicts.
+fn adder_run(out: &mut Out, kind: &str, ob: bool, w: u32, sa: &[u64], a: &[u128], sb: &[u64], b: &[u128], rows: Option<(u128, usize)>) {
+    let so = match bshape(sa, sb) {
+        Some(s) => s,
+        None => return,
+    };
+    let r = eval_op(
+        move || CustomOperation::new(BinaryAdd { overflow_bit: ob }),
+        vec![array_type(with_bits(sa, w), BIT), array_type(with_bits(sb, w), BIT)],
+        vec![bits_value(a, w), bits_value(b, w)],
+    );
+    let ea = bexpand(a, sa, &so);
+    let eb = bexpand(b, sb, &so);
+    let so2 = so.clone();
+    let parsed: Outcome<Vec<(u128, Option<u128>)>> = match &r {
+        Outcome::Ok(v) => {
+            let v = v.clone();
+            observe(AssertUnwindSafe(move || {
+                if ob {
+                    let parts = v.to_vector()?;
+                    let s = value_ints(&parts[0], &so2, w)?;
+                    let c = value_ints(&parts[1], &so2, 1)?;
+                    Ok(s.into_iter().zip(c.into_iter()).map(|(s, c)| (s, Some(c))).collect())
+                } else {
+                    Ok(value_ints(&v, &so2, w)?.into_iter().map(|s| (s, None)).collect())
+                }
+            }))
+        }
+        Outcome::Err => Outcome::Err,
+        Outcome::Panic => Outcome::Panic,
+    };
+    let input = json!({"op":"BinaryAdd","overflow_bit":ob,"width":w,"shape_a":sa,"shape_b":sb,
+        "a": a.iter().take(8).map(|x| x.to_string()).collect::<Vec<_>>(), "b": b.iter().take(8).map(|x| x.to_string()).collect::<Vec<_>>() });
+    out.stat(&format!("adder:w{}:ob{}:{}", w, ob, parsed.tag()));
+    out.stat_n("adder:operand_pairs", ea.len() as u64);
+    let mut nontrivial = !w.is_power_of_two();
+    if let Outcome::Ok(res) = &parsed {
+        for i in 0..ea.len() {
+            let (x, y) = (ea[i], eb[i]);
+            // oracle: wrapping sum and true carry-out, native arithmetic
+            let (s128, o128) = x.overflowing_add(y);
+            let exp_s = s128 & mask(w);
+            let exp_c = if w == 128 { o128 as u128 } else { (s128 >> w) & 1 };
+            if exp_c == 1 {
+                nontrivial = true;
+            }
+            if res[i].0 != exp_s {
+                out.violation("adder-wrong-sum", json!({"width":w,"overflow_bit":ob,"a":x.to_string(),"b":y.to_string()}), format!("sum {} expected {}", res[i].0, exp_s));
+            } else if ob && res[i].1 != Some(exp_c) {
+                out.violation("adder-wrong-carry", json!({"width":w,"a":x.to_string(),"b":y.to_string()}), format!("carry {:?} expected {}", res[i].1, exp_c));
+            } else {
+                out.oracle_ok();
+            }
+        }
+    } else if w.is_power_of_two() {
+        out.violation("adder-fails", input.clone(), "BinaryAdd failed on a power-of-two width".into());
+    }
+    let rhs = res(&parsed, |v| list(v, |(s, c)| format!("({}, {})", s, match c { Some(c) => format!("Some {}", c), None => "None".into() })));
+    let lhs = match rows {
+        Some((a0, na)) => format!("add_rows {} {} {} {}", cb(ob), w, a0, na),
+        None => format!("add_batch {} {} {} {}", cb(ob), w, zl(&ea), zl(&eb)),
+    };
+    out.case(kind, lhs, rhs, input, nontrivial);
+}
+
+fn adder_bits_case(out: &mut Out, ob: bool, w: u32, x: u128, y: u128) {
+    // 1-D operands, model called directly on explicit bit lists
+    let r = eval_op(
+        move || CustomOperation::new(BinaryAdd { overflow_bit: ob }),
+        vec![array_type(vec![w as u64], BIT), array_type(vec![w as u64], BIT)],
+        vec![bits_value(&[x], w), bits_value(&[y], w)],
+    );
+    let parsed: Outcome<(u128, Option<u128>)> = match &r {
+        Outcome::Ok(v) => {
+            let v = v.clone();
+            observe(AssertUnwindSafe(move || {
+                if ob {
+                    let parts = v.to_vector()?;
+                    Ok((value_ints(&parts[0], &[], w)?[0], Some(value_ints(&parts[1], &[], 1)?[0])))
+                } else {
+                    Ok((value_ints(&v, &[], w)?[0], None))
+                }
+            }))
+        }
+        Outcome::Err => Outcome::Err,
+        Outcome::Panic => Outcome::Panic,
+    };
+    let rhs = res(&parsed, |(s, c)| format!("({}, {})", blist(*s, w), match c { Some(c) => format!("Some {}", blist(*c, 1)), None => "None".into() }));
+    let carry = x.overflowing_add(y).1 || (w < 128 && ((x + y) >> w) & 1 == 1);
+    out.case("adder_bits", format!("binary_add {} {} {}", cb(ob), blist(x, w), blist(y, w)), rhs,
+        json!({"op":"BinaryAdd","overflow_bit":ob,"width":w,"a":x.to_string(),"b":y.to_string()}), carry || !w.is_power_of_two());
+}
+
+fn run_adder(tier: &str, rng: &mut Rng, out: &mut Out) {
+    let thorough = tier != "quick";
+    for &ob in &[false, true] {
+        // exhaustive operand pairs: widths 1, 2, 4 always; width 8 all rows (thorough) or sampled rows
+        for &w in &[1u32, 2, 4] {
+            let n = 1usize << w;
+            let all: Vec<u128> = (0..n as u128).collect();
+            adder_run(out, "adder_exhaustive", ob, w, &[n as u64, 1], &all, &[n as u64], &all, Some((0, n)));
+            out.stat(&format!("adder:exhaustive:w{}", w));
+        }
+        let all8: Vec<u128> = (0..256u128).collect();
+        let rows8: Vec<u128> = if thorough {
+            (0..256u128).step_by(8).collect()
+        } else {
+            let mut v = vec![0u128, 248];
+            v.push(8 * rng.below(32) as u128);
+            v.sort();
+            v.dedup();
+            v
+        };
+        for a0 in rows8 {
+            let a: Vec<u128> = (a0..a0 + 8).collect();
+            adder_run(out, "adder_exhaustive", ob, 8, &[8, 1], &a, &[256], &all8, Some((a0, 8)));
+        }
+        if thorough {
+            out.stat("adder:exhaustive:w8");
+        }
+        // every supported width: all pairs of corner operands, through broadcasting [C,1,w] x [C,w]
+        for &w in &[1u32, 2, 4, 8, 16, 32, 64, 128] {
+            let cs = corners(w, rng, if thorough { 12 } else { 4 });
+            let c = cs.len() as u64;
+            adder_run(out, "adder_corners", ob, w, &[c, 1], &cs, &[c], &cs, None);
+            // 1-D and scalar-like shapes with explicit bit lists
+            let reps = if thorough { 12 } else { 3 };
+            for i in 0..reps {
+                let x = if i == 0 { mask(w) } else { *rng.pick(&cs) };
+                let y = if i == 0 { 1 & mask(w) } else { rng.u128() & mask(w) };
+                adder_bits_case(out, ob, w, x, y);
+            }
+            // broadcasting shapes of the batch dimensions
+            for _ in 0..(if thorough { 6 } else { 2 }) {
+                let (sa, sb) = loop {
+                    let sa = random_shape(rng);
+                    let sb = if rng.chance(1, 2) { random_shape(rng) } else { sa.iter().map(|d| if rng.chance(1, 2) { 1 } else { *d }).collect() };
+                    if bshape(&sa, &sb).is_some() {
+                        break (sa, sb);
+                    }
+                };
+                let a: Vec<u128> = (0..numel(&sa)).map(|_| if rng.chance(1, 2) { *rng.pick(&cs) } else { rng.u128() & mask(w) }).collect();
+                let b: Vec<u128> = (0..numel(&sb)).map(|_| if rng.chance(1, 2) { *rng.pick(&cs) } else { rng.u128() & mask(w) }).collect();
+                adder_run(out, "adder_broadcast", ob, w, &sa, &a, &sb, &b, None);
+            }
+        }
+        // widths that are not powers of two are rejected
+        for &w in &[3u32, 5, 6, 7, 12, 24, 100] {
+            let a = vec![1u128, mask(w)];
+            adder_run(out, "adder_reject", ob, w, &[2], &a, &[2], &a, None);
+        }
+    }
+}
+
+// ------------------------------------------------------------------------------------ mux
+fn st_vals(st: ScalarType, n: usize, rng: &mut Rng) -> Vec<u128> {
+    let w = width(st);
+    (0..n).map(|_| (boundary_i128(st, rng) as u128) & mask(w)).collect()
+}
+fn mk_value(xs: &[u128], st: ScalarType) -> Value {
+    Value::from_flattened_array(xs, st).unwrap()
+}
+fn mk_type(shape: &Option<Vec<u64>>, st: ScalarType) -> Type {
+    match shape {
+        Some(s) => array_type(s.clone(), st),
+        None => scalar_type(st),
+    }
+}
+fn mux_run(out: &mut Out, kind: &str, tf: ScalarType, t1: ScalarType, t0: ScalarType,
+           sf: &Option<Vec<u64>>, f: &[u128], s1: &Option<Vec<u64>>, c1: &[u128], s0: &Option<Vec<u64>>, c0: &[u128]) {
+    let e: Vec<u64> = vec![];
+    let (shf, sh1, sh0) = (sf.clone().unwrap_or(e.clone()), s1.clone().unwrap_or(e.clone()), s0.clone().unwrap_or(e.clone()));
+    let so = match bshape(&sh1, &sh0).and_then(|s| bshape(&shf, &s)) {
+        Some(s) => s,
+        None => return,
+    };
+    let r = eval_op(
+        || CustomOperation::new(Mux {}),
+        vec![mk_type(sf, tf), mk_type(s1, t1), mk_type(s0, t0)],
+        vec![mk_value(f, tf), mk_value(c1, t1), mk_value(c0, t0)],
+    );
+    let w = width(t1);
+    let so2 = so.clone();
+    let parsed: Outcome<Vec<u128>> = match &r {
+        Outcome::Ok(v) => {
+            let v = v.clone();
+            observe(AssertUnwindSafe(move || {
+                let t = if so2.is_empty() { scalar_type(t1) } else { array_type(so2.clone(), t1) };
+                let xs = if so2.is_empty() { vec![v.to_u128(t1)?] } else { v.to_flattened_array_u128(t)? };
+                Ok(xs.into_iter().map(|x| x & mask(w)).collect())
+            }))
+        }
+        Outcome::Err => Outcome::Err,
+        Outcome::Panic => Outcome::Panic,
+    };
+    let (ef, e1, e0) = (bexpand(f, &shf, &so), bexpand(c1, &sh1, &so), bexpand(c0, &sh0, &so));
+    let input = json!({"op":"Mux","flag_type":scalar(tf),"choice1_type":scalar(t1),"choice0_type":scalar(t0),
+        "shape_flag":sf,"shape1":s1,"shape0":s0,
+        "flag": f.iter().take(8).map(|x| x.to_string()).collect::<Vec<_>>(),
+        "choice1": c1.iter().take(8).map(|x| x.to_string()).collect::<Vec<_>>(),
+        "choice0": c0.iter().take(8).map(|x| x.to_string()).collect::<Vec<_>>()});
+    out.stat(&format!("mux:{}:{}", scalar(t1), parsed.tag()));
+    let valid = tf == BIT && t1 == t0;
+    let mut seen = [false, false];
+    if let Outcome::Ok(res) = &parsed {
+        for i in 0..ef.len() {
+            // oracle: flag 1 -> second operand, flag 0 -> third
+            let exp = if ef[i] == 1 { e1[i] } else { e0[i] };
+            if e1[i] != e0[i] {
+                seen[ef[i] as usize & 1] = true;
+            }
+            if res[i] != exp {
+                let class = if t1 == BIT { "mux-bit-selects-wrong-operand" } else { "mux-integer-selects-wrong-operand" };
+                out.violation(class, json!({"type":scalar(t1),"flag":ef[i].to_string(),"choice1":e1[i].to_string(),"choice0":e0[i].to_string()}),
+                    format!("Mux returned {} expected {}", res[i], exp));
+            } else {
+                out.oracle_ok();
+            }
+        }
+        if !valid {
+            out.violation("mux-accepts-bad-types", input.clone(), "Mux accepted a non-bit flag or mismatched choices".into());
+        }
+    } else if valid {
+        out.violation("mux-fails", input.clone(), "Mux failed on valid arguments".into());
+    }
+    out.stat(&format!("mux:flags_seen:{}{}", seen[0] as u8, seen[1] as u8));
+    let lhs = format!("mux_op {} {} {} {} {} {}", scalar(tf), scalar(t1), scalar(t0), zl(&ef), zl(&e1), zl(&e0));
+    out.case(kind, lhs, res(&parsed, |v| zl(v)), input, (seen[0] && seen[1]) || !valid);
+}
+
+fn run_mux(tier: &str, rng: &mut Rng, out: &mut Out) {
+    let thorough = tier != "quick";
+    for &st in ALL_ST.iter() {
+        let w = width(st);
+        // scalar operands: flag 1 and flag 0 with distinct operands (the repaired defect 34574f8)
+        for &fl in &[1u128, 0] {
+            let (a, b) = if st == BIT { (1u128, 0u128) } else { (111 & mask(w), 222 & mask(w)) };
+            mux_run(out, "mux_scalar", BIT, st, st, &None, &[fl], &None, &[a], &None, &[b]);
+            let (a, b) = if st == BIT { (0u128, 1u128) } else { (mask(w), 1u128 << (w - 1)) };
+            mux_run(out, "mux_scalar", BIT, st, st, &None, &[fl], &None, &[a], &None, &[b]);
+        }
+        // exhaustive on bits
+        if st == BIT {
+            let f = [0u128, 1];
+            mux_run(out, "mux_exhaustive_bits", BIT, BIT, BIT, &Some(vec![2, 1, 1]), &f, &Some(vec![2, 1]), &f, &Some(vec![2]), &f);
+        }
+        // arrays with broadcasting
+        for round in 0..(if thorough { 30 } else { 4 }) {
+            let (sf, s1, s0) = loop {
+                let base = random_shape(rng);
+                let pick = |rng: &mut Rng| -> Option<Vec<u64>> {
+                    match rng.below(5) {
+                        0 => None,
+                        1 => Some(base.clone()),
+                        2 => Some(base.iter().map(|d| if rng.chance(1, 2) { 1 } else { *d }).collect()),
+                        3 => Some(base[base.len() - 1..].to_vec()),
+                        _ => Some(random_shape(rng)),
+                    }
+                };
+                let (a, b, c) = (pick(rng), pick(rng), pick(rng));
+                let e: Vec<u64> = vec![];
+                if bshape(&b.clone().unwrap_or(e.clone()), &c.clone().unwrap_or(e.clone())).and_then(|s| bshape(&a.clone().unwrap_or(e.clone()), &s)).is_some() {
+                    break (a, b, c);
+                }
+            };
+            let nf = sf.as_ref().map(|s| numel(s)).unwrap_or(1);
+            let mut f: Vec<u128> = (0..nf).map(|_| rng.below(2) as u128).collect();
+            if nf >= 2 && round % 2 == 0 {
+                f[0] = 1;
+                f[1] = 0;
+            }
+            let c1 = st_vals(st, s1.as_ref().map(|s| numel(s)).unwrap_or(1), rng);
+            let c0 = st_vals(st, s0.as_ref().map(|s| numel(s)).unwrap_or(1), rng);
+            mux_run(out, "mux_array", BIT, st, st, &sf, &f, &s1, &c1, &s0, &c0);
+        }
+    }
+    // rejected argument types: non-bit flag, choices of different scalar types
+    for _ in 0..(if thorough { 40 } else { 8 }) {
+        let tf = if rng.chance(1, 2) { BIT } else { *rng.pick(&ALL_ST) };
+        let t1 = *rng.pick(&ALL_ST);
+        let t0 = if tf != BIT && rng.chance(1, 2) { t1 } else { *rng.pick(&ALL_ST) };
+        let sh = Some(vec![2u64]);
+        mux_run(out, "mux_types", tf, t1, t0, &sh, &[1, 0], &sh, &[1, 0], &sh, &[0, 1]);
+    }
+}
+
+// ------------------------------------------------------------------------------------ clip
+fn clip_run(out: &mut Out, kind: &str, k: u64, w: u32, batch: &[u64], xs: &[u128]) {
+    let r = eval_op(
+        move || CustomOperation::new(Clip2K { k }),
+        vec![array_type(with_bits(batch, w), BIT)],
+        vec![bits_value(xs, w)],
+    );
+    let b2 = batch.to_vec();
+    let parsed: Outcome<Vec<u128>> = match &r {
+        Outcome::Ok(v) => {
+            let v = v.clone();
+            observe(AssertUnwindSafe(move || value_ints(&v, &b2, w)))
+        }
+        Outcome::Err => Outcome::Err,
+        Outcome::Panic => Outcome::Panic,
+    };
+    let valid = (k as u128) + 2 <= w as u128;
+    let input = json!({"op":"Clip2K","k":k,"width":w,"batch":batch,"x":xs.iter().take(8).map(|x| x.to_string()).collect::<Vec<_>>()});
+    out.stat(&format!("clip:w{}:{}", w, parsed.tag()));
+    let mut nontrivial = !valid;
+    if let Outcome::Ok(res) = &parsed {
+        for (i, x) in xs.iter().enumerate() {
+            // oracle: clamp of the signed value to [0, 2^k]
+            let s = sval(*x, w);
+            let exp: u128 = if s < 0 { 0 } else if (s as u128) >> k != 0 { 1u128 << k } else { s as u128 };
+            if exp != *x {
+                nontrivial = true;
+            }
+            if res[i] != exp {
+                out.violation("clip-wrong", json!({"k":k,"width":w,"x":x.to_string()}), format!("Clip2K returned {} expected {}", res[i], exp));
+            } else {
+                out.oracle_ok();
+            }
+        }
+        if !valid {
+            out.violation("clip-accepts-bad-k", input.clone(), "Clip2K accepted k > num_bits - 2".into());
+        }
+    } else if valid {
+        out.violation("clip-fails", input.clone(), "Clip2K failed on valid arguments".into());
+    }
+    out.case(kind, format!("clip_batch {} {} {}", k, w, zl(xs)), res(&parsed, |v| zl(v)), input, nontrivial);
+}
+
+fn run_clip(tier: &str, rng: &mut Rng, out: &mut Out) {
+    let thorough = tier != "quick";
+    // exhaustive: every input of widths 2..8, every admissible k
+    let maxw = if thorough { 8 } else { 6 };
+    for w in 2..=maxw {
+        let all: Vec<u128> = (0..(1u128 << w)).collect();
+        for k in 0..=(w as u64 - 2) {
+            clip_run(out, "clip_exhaustive", k, w, &[all.len() as u64], &all);
+        }
+        out.stat(&format!("clip:exhaustive:w{}", w));
+    }
+    let widths: Vec<u32> = if thorough { vec![7, 8, 9, 13, 16, 31, 32, 33, 64, 100, 127, 128] } else { vec![8, 13, 16, 32, 64, 128] };
+    for &w in &widths {
+        let mut ks: Vec<u64> = vec![0, 1, w as u64 - 2, w as u64 / 2];
+        for _ in 0..(if thorough { 4 } else { 1 }) {
+            ks.push(rng.below(w as u64 - 1));
+        }
+        ks.sort();
+        ks.dedup();
+        for k in ks {
+            let mut xs = corners(w, rng, 6);
+            let p = 1u128 << k;
+            for d in [p, p.wrapping_sub(1), p + 1, p << 1, p | 1, (p.wrapping_neg()) & mask(w), (p.wrapping_neg().wrapping_sub(1)) & mask(w)] {
+                xs.push(d & mask(w));
+            }
+            let batch: Vec<u64> = if rng.chance(1, 2) && xs.len() % 2 == 0 { vec![2, xs.len() as u64 / 2] } else { vec![xs.len() as u64] };
+            clip_run(out, "clip_corners", k, w, &batch, &xs);
+        }
+        // k = num_bits - 1 and above are rejected
+        clip_run(out, "clip_reject", w as u64 - 1, w, &[1], &[1]);
+        clip_run(out, "clip_reject", w as u64, w, &[1], &[1]);
+    }
+    // 1-D input (no batch dimension)
+    clip_run(out, "clip_1d", 3, 8, &[], &[0x9c]);
+    clip_run(out, "clip_1d", 3, 8, &[], &[0x1c]);
+    clip_run(out, "clip_1d", 3, 8, &[], &[0x05]);
+}
+
+// ------------------------------------------------------------------------------------ long division
+/// floored division on mathematical integers given as (negative?, magnitude); written without `/` on
+/// signed machine integers so that min / -1 needs no special case: returns (q, r) reduced mod 2^m, 2^n.
+fn floored(a: i128, a_big: Option<u128>, d: i128, d_big: Option<u128>, m: u32, n: u32) -> (u128, u128) {
+    // magnitudes as u128 (an unsigned 128-bit operand arrives in *_big)
+    let (an, am) = match a_big { Some(x) => (false, x), None => (a < 0, a.unsigned_abs()) };
+    let (dn, dm) = match d_big { Some(x) => (false, x), None => (d < 0, d.unsigned_abs()) };
+    let (q0, r0) = (am / dm, am % dm);
+    // floor: if signs differ and the remainder is non-zero, round the quotient away from zero
+    let (qn, qm, rm) = if an != dn { if r0 == 0 { (true, q0, 0) } else { (true, q0 + 1, dm - r0) } } else { (false, q0, r0) };
+    let q = if qn { qm.wrapping_neg() } else { qm } & mask(m);
+    // remainder takes the divisor's sign
+    let r = if dn { rm.wrapping_neg() } else { rm } & mask(n);
+    (q, r)
+}
+
+fn div_run(out: &mut Out, kind: &str, sg: bool, m: u32, n: u32, sa: &[u64], a: &[u128], sb: &[u64], b: &[u128], rows: Option<(u128, usize)>) {
+    let so = match bshape(sa, sb) {
+        Some(s) => s,
+        None => return,
+    };
+    let r = eval_op(
+        move || CustomOperation::new(LongDivision { signed: sg }),
+        vec![array_type(with_bits(sa, m), BIT), array_type(with_bits(sb, n), BIT)],
+        vec![bits_value(a, m), bits_value(b, n)],
+    );
+    let so2 = so.clone();
+    let parsed: Outcome<Vec<(u128, u128)>> = match &r {
+        Outcome::Ok(v) => {
+            let v = v.clone();
+            observe(AssertUnwindSafe(move || {
+                let parts = v.to_vector()?;
+                let q = value_ints(&parts[0], &so2, m)?;
+                let r = value_ints(&parts[1], &so2, n)?;
+                Ok(q.into_iter().zip(r.into_iter()).collect())
+            }))
+        }
+        Outcome::Err => Outcome::Err,
+        Outcome::Panic => Outcome::Panic,
+    };
+    let ea = bexpand(a, sa, &so);
+    let eb = bexpand(b, sb, &so);
+    let input = json!({"op":"LongDivision","signed":sg,"dividend_bits":m,"divisor_bits":n,"shape_a":sa,"shape_b":sb,
+        "a": a.iter().take(8).map(|x| x.to_string()).collect::<Vec<_>>(), "b": b.iter().take(8).map(|x| x.to_string()).collect::<Vec<_>>() });
+    out.stat(&format!("div:{}:m{}:n{}:{}", if sg { "signed" } else { "unsigned" }, m, n, parsed.tag()));
+    out.stat_n("div:operand_pairs", ea.len() as u64);
+    let supported = m.is_power_of_two() && n.is_power_of_two() && m >= 2 && n >= 2;
+    let mut nontrivial = !supported;
+    if let Outcome::Ok(res) = &parsed {
+        for i in 0..ea.len() {
+            let (x, y) = (ea[i], eb[i]);
+            if y == 0 {
+                nontrivial = true;
+                out.stat("div:zero_divisor_pairs");
+                continue; // outside the property: the divisor must be non-zero
+            }
+            let (ax, dx) = if sg { (sval(x, m), sval(y, n)) } else { (0, 0) };
+            let (q, rr) = if sg { floored(ax, None, dx, None, m, n) } else { floored(0, Some(x), 0, Some(y), m, n) };
+            if sg && (ax < 0 || dx < 0) || rr != 0 {
+                nontrivial = true;
+            }
+            if m != n {
+                // dividend and divisor of different widths: the operation's documentation allows
+                // them, so they are judged against floored division as well.  The known defect
+                // (unsigned, dividend wider than the divisor, shifted remainder loses its top bit)
+                // has its own class; anything else that differs is reported under another class.
+                if res[i] != (q, rr) {
+                    out.stat(&format!("div:mixed-width-differs-from-floored:{}:m{}:n{}", if sg { "signed" } else { "unsigned" }, m, n));
+                    let class = if !sg && m > n { "longdiv-unsigned-wider-dividend" } else { "longdiv-mixed-width-wrong" };
+                    out.violation(class, json!({"signed":sg,"dividend_bits":m,"divisor_bits":n,"a":x.to_string(),"d":y.to_string()}),
+                        format!("got (q,r)=({},{}) expected floored ({},{})", res[i].0, res[i].1, q, rr));
+                } else {
+                    out.stat("div:mixed-width-agrees-with-floored");
+                    out.oracle_ok();
+                }
+                continue;
+            }
+            let (gq, gr) = res[i];
+            // oracle 1: quotient and remainder of floored division (mod 2^n)
+            if (gq, gr) != (q, rr) {
+                out.violation("longdiv-wrong", json!({"signed":sg,"width":m,"a":x.to_string(),"d":y.to_string()}),
+                    format!("got (q,r)=({},{}) expected ({},{})", gq, gr, q, rr));
+                continue;
+            }
+            // oracle 2: the identity q*d + r = a (mod 2^n), |r| < |d|, r has the divisor's sign
+            let ident = gq.wrapping_mul(y).wrapping_add(gr) & mask(m) == x;
+            let (rs, ds) = if sg { (sval(gr, n), sval(y, n)) } else { (0, 0) };
+            let small = if sg { rs.unsigned_abs() < ds.unsigned_abs() && (rs == 0 || (rs < 0) == (ds < 0)) } else { gr < y };
+            if !ident || !small {
+                out.violation("longdiv-identity", json!({"signed":sg,"width":m,"a":x.to_string(),"d":y.to_string()}),
+                    format!("q={} r={} identity={} remainder_ok={}", gq, gr, ident, small));
+            } else {
+                out.oracle_ok();
+            }
+        }
+    } else if supported {
+        out.violation("longdiv-fails", input.clone(), "LongDivision failed on supported widths".into());
+    }
+    let rhs = res(&parsed, |v| list(v, |(q, r)| format!("({}, {})", q, r)));
+    let lhs = match rows {
+        Some((a0, na)) => format!("div_rows {} {} {} {}", cb(sg), m, a0, na),
+        None => format!("div_batch {} {} {} {} {}", cb(sg), m, n, zl(&ea), zl(&eb)),
+    };
+    out.case(kind, lhs, rhs, input, nontrivial);
+}
+
+fn run_div(tier: &str, rng: &mut Rng, out: &mut Out) {
+    let thorough = tier != "quick";
+    for &sg in &[false, true] {
+        // exhaustive operand pairs (zero divisors included in the tie, excluded from the oracle)
+        for &w in &[2u32, 4] {
+            let n = 1usize << w;
+            let all: Vec<u128> = (0..n as u128).collect();
+            div_run(out, "div_exhaustive", sg, w, w, &[n as u64, 1], &all, &[n as u64], &all, Some((0, n)));
+            out.stat(&format!("div:exhaustive:w{}", w));
+        }
+        let all8: Vec<u128> = (0..256u128).collect();
+        let rows8: Vec<u128> = if thorough {
+            (0..256u128).step_by(4).collect()
+        } else {
+            let mut v = vec![0u128, 128, 252];
+            v.push(4 * rng.below(64) as u128);
+            v.sort();
+            v.dedup();
+            v
+        };
+        for a0 in rows8 {
+            let a: Vec<u128> = (a0..a0 + 4).collect();
+            div_run(out, "div_exhaustive", sg, 8, 8, &[4, 1], &a, &[256], &all8, Some((a0, 4)));
+        }
+        if thorough {
+            out.stat("div:exhaustive:w8");
+        }
+        // every supported width: corner operands, all pairs
+        for &w in &[2u32, 4, 8, 16, 32, 64, 128] {
+            let cs = corners(w, rng, if thorough { 8 } else { 2 });
+            let cs: Vec<u128> = if !thorough && w >= 64 { cs.into_iter().take(9).collect() } else { cs };
+            let c = cs.len() as u64;
+            div_run(out, "div_corners", sg, w, w, &[c, 1], &cs, &[c], &cs, None);
+            // random operands, divisor of random magnitude, broadcasting batch shapes
+            for _ in 0..(if thorough { 5 } else { 1 }) {
+                let (sa, sb) = loop {
+                    let sa = random_shape(rng);
+                    let sb: Vec<u64> = if rng.chance(1, 2) { vec![1] } else { sa.iter().map(|d| if rng.chance(1, 2) { 1 } else { *d }).collect() };
+                    if bshape(&sa, &sb).is_some() {
+                        break if rng.chance(1, 2) { (sa, sb) } else { (sb, sa) };
+                    }
+                };
+                let a: Vec<u128> = (0..numel(&sa)).map(|_| rng.u128() & mask(w)).collect();
+                let b: Vec<u128> = (0..numel(&sb)).map(|_| {
+                    let sh = rng.below(w as u64) as u32;
+                    let v = (rng.u128() & mask(w)) >> sh;
+                    let v = if v == 0 { 1 } else { v };
+                    if sg && rng.chance(1, 2) { v.wrapping_neg() & mask(w) } else { v }
+                }).collect();
+                div_run(out, "div_random", sg, w, w, &sa, &a, &sb, &b, None);
+            }
+        }
+        // mixed widths (dividend and divisor of different lengths): tied to the model and judged
+        for &(m, n) in &[(8u32, 4u32), (4, 8), (16, 8), (8, 16), (32, 8), (64, 16), (2, 4)] {
+            let ca = corners(m, rng, 3);
+            let cd = corners(n, rng, 3);
+            div_run(out, "div_mixed_widths", sg, m, n, &[ca.len() as u64, 1], &ca, &[cd.len() as u64], &cd, None);
+        }
+        // unsupported widths are rejected
+        for &(m, n) in &[(1u32, 1u32), (3, 3), (6, 6), (8, 1), (12, 12), (8, 5), (5, 8), (1, 8)] {
+            div_run(out, "div_reject", sg, m, n, &[2], &[1, mask(m)], &[2], &[1, mask(n)], None);
+        }
+    }
+}
+
+pub fn run(tier: &str, seed: u64, out: &mut Out) {
+    let mut rng = Rng::new(seed ^ 0xC17);
+    run_mux(tier, &mut rng, out);
+    run_adder(tier, &mut rng, out);
+    run_clip(tier, &mut rng, out);
+    run_div(tier, &mut rng, out);
+}
